@@ -166,6 +166,7 @@ def run(ctx):
             lambda: loops.two_acc_loop(N, 0),
             lambda: loops.lagged_signal_loop(N, N % 3),
             lambda: loops.const_feed_loop(N, N % 2),
+            lambda: loops.interval_loop(2 * N + 1, N % 3),
         ):
             if ctx.shard[0] != sysn % ctx.shard[1]:
                 sysn += 1
